@@ -1616,6 +1616,9 @@ func (p *Program) firstMatchThrough(fn *ssa.Function, x ssa.Value, depth int, se
 	if w := p.budgetedOver(fn, x); w != "" {
 		return w
 	}
+	if w := p.lastWinsOver(fn, x); w != "" {
+		return w
+	}
 	refs := x.Referrers()
 	if refs == nil {
 		return ""
@@ -1645,14 +1648,24 @@ func (p *Program) firstMatchThrough(fn *ssa.Function, x ssa.Value, depth int, se
 				}
 			}
 		case ssa.CallInstruction:
-			callee := in.Common().StaticCallee()
-			if callee == nil || callee.Pkg == nil || !p.Own[callee.Pkg.Pkg] || len(callee.Blocks) == 0 {
+			if in.Common().StaticCallee() == nil && !in.Common().IsInvoke() {
 				continue
 			}
-			for i, a := range in.Common().Args {
-				if a == x && i < len(callee.Params) {
-					if w := p.firstMatchThrough(callee, callee.Params[i], depth+1, seen); w != "" {
-						return w
+			// the resolved callees: the static callee, the concrete method behind a delegating method / promoted wrapper, or the
+			// module's implementations of an invoked interface method (receiver first in both conventions)
+			for _, callee := range p.ownCallees(in) {
+				if callee.Pkg == nil || !p.Own[callee.Pkg.Pkg] || len(callee.Blocks) == 0 {
+					continue
+				}
+				off := 0
+				if in.Common().IsInvoke() {
+					off = 1 // an invoke lists the arguments without the receiver
+				}
+				for i, a := range in.Common().Args {
+					if a == x && i+off < len(callee.Params) {
+						if w := p.firstMatchThrough(callee, callee.Params[i+off], depth+1, seen); w != "" {
+							return w
+						}
 					}
 				}
 			}
@@ -1964,6 +1977,111 @@ func lastWinsOverCallInto(p *Program, fn *ssa.Function, pkg string) string {
 				}
 				if definedInDeep(st.Val, loop, map[ssa.Value]bool{}) {
 					return p.InstrPos(st)
+				}
+			}
+		}
+	}
+	return ""
+}
+
+// lastWinsOver: fn walks the elements of x and hands each to an own function that assigns, through a pointer argument that is
+// the same on every iteration, a field with a value that does not build on the field's previous value: after the loop the
+// field holds what the last (qualifying) element produced.
+func (p *Program) lastWinsOver(fn *ssa.Function, x ssa.Value) string {
+	for _, loop := range naturalLoops(fn) {
+		elems := map[ssa.Value]bool{}
+		for b := range loop {
+			for _, in := range b.Instrs {
+				switch e := in.(type) {
+				case *ssa.IndexAddr:
+					if e.X == x {
+						elems[e] = true
+					}
+				case *ssa.Index:
+					if e.X == x {
+						elems[e] = true
+					}
+				}
+			}
+		}
+		if len(elems) == 0 {
+			continue
+		}
+		var fromElem func(v ssa.Value, d int) bool
+		fromElem = func(v ssa.Value, d int) bool {
+			if d > 6 || v == nil {
+				return false
+			}
+			if elems[v] {
+				return true
+			}
+			switch y := v.(type) {
+			case *ssa.UnOp:
+				if al, ok := y.X.(*ssa.Alloc); ok && al.Referrers() != nil {
+					for _, r := range *al.Referrers() {
+						if st, ok := r.(*ssa.Store); ok && st.Addr == ssa.Value(al) && fromElem(st.Val, d+1) {
+							return true
+						}
+					}
+				}
+				return fromElem(y.X, d+1)
+			case *ssa.FieldAddr:
+				return fromElem(y.X, d+1)
+			case *ssa.Field:
+				return fromElem(y.X, d+1)
+			}
+			return false
+		}
+		for b := range loop {
+			for _, in := range b.Instrs {
+				call, ok := in.(*ssa.Call)
+				if !ok || call.Call.StaticCallee() == nil {
+					continue
+				}
+				hasElem := false
+				for _, a := range call.Call.Args {
+					if fromElem(a, 0) {
+						hasElem = true
+					}
+				}
+				if !hasElem {
+					continue
+				}
+				for _, callee := range p.ownCallees(call) {
+					if len(callee.Blocks) == 0 {
+						continue
+					}
+					sf := newSymFn(p, callee, 0)
+					sf.inlineOK = func(*ssa.Function) bool { return false }
+					for _, e := range sf.emissions() {
+						if !strings.HasPrefix(e.target, "paramfield:") || e.elem == nil || len(e.elem.Kids) == 0 {
+							continue
+						}
+						var idx int
+						var path string
+						if _, err := fmt.Sscanf(strings.TrimPrefix(e.target, "paramfield:"), "%d.%s", &idx, &path); err != nil || idx >= len(call.Call.Args) {
+							continue
+						}
+						// the pointer argument is loop-invariant in fn
+						if ai, ok := call.Call.Args[idx].(ssa.Instruction); ok && ai.Block() != nil && loop[ai.Block()] {
+							continue
+						}
+						val := e.elem.Kids[0]
+						if val.Op == "const" {
+							continue // a flag set to a constant is the same whoever sets it last
+						}
+						self := fmt.Sprintf("p%d.%s", idx, path)
+						builds := false
+						val.walk(func(t *Sym) {
+							if t.String() == self {
+								builds = true
+							}
+						})
+						if builds {
+							continue
+						}
+						return shortFn(p.FuncKey(fn)) + " hands each element to " + shortFn(p.FuncKey(callee)) + ", which overwrites " + path + " of the shared result (" + e.pos + "): the last qualifying element wins, so the result follows the map's iteration order"
+					}
 				}
 			}
 		}
